@@ -51,11 +51,20 @@ def gen_test(rng, module: str, n: int | None = None):
         menu.append(["Object", al + ".LIMIT", 3])
         return menu
 
+    LITERALS = ["'abc'", '"it\'s"', "''", "b'x'", "17", "-4", "2.5", "-0.5", "True", "None", "[1, 'a']", "(1,)", "()",
+                "{'k': 1}", "{1, 2}", "[]", "{}", "'''doc-like'''"]
+    unused: set[str] = set()
+    if n and rng.random() < 0.35:
+        # an unused primitive in FIRST position: the writer rewrites `var = <literal>` to a bare literal
+        stmts.append({"code": f"var_{k} = {rng.choice(LITERALS)}\n", "bind": f"var_{k}", "type": None, "expected": [],
+                      "asserts": []})
+        unused.add(f"var_{k}")
+        k += 1
     for _ in range(n):
         t = rng.choices(
             ["int", "none", "bool", "fl", "text", "lst", "shade", "ok", "box", "put", "boom", "fail", "bare", "type",
-             "rawraises", "rawassert", "ghost", "expr"],
-            [8, 2, 2, 8, 4, 5, 5, 5, 8, 4, 12, 3, 4, 2, 2, 2, 2, 3])[0]
+             "rawraises", "rawassert", "ghost", "expr", "kw"],
+            [8, 6, 2, 8, 4, 5, 5, 5, 8, 4, 12, 3, 4, 2, 2, 2, 2, 3, 4])[0]
         v = f"var_{k}"
         s = {"code": None, "bind": v, "type": None, "expected": [], "asserts": []}
         menu = []
@@ -63,6 +72,10 @@ def gen_test(rng, module: str, n: int | None = None):
         if t == "int":
             val = rng.randint(-50, 50)
             s["code"], s["type"], menu = f"{v} = {val}", "int", [["Object", v, val]]
+        elif t == "none" and rng.random() < 0.7:
+            s["code"] = f"{v} = {rng.choice(LITERALS)}"
+            if rng.random() < 0.6:
+                unused.add(v)
         elif t == "none":
             s["code"], menu = f"{v} = None", [["Object", v, None]]
         elif t == "bool":
@@ -107,6 +120,10 @@ def gen_test(rng, module: str, n: int | None = None):
             s["code"] = f"{v} = {rng.choice(boxes)}.fail()"
             s["expected"] = ["StubError"] if rng.random() < 0.5 else []
             menu, raising = [["Exc", module, "StubError"]], True
+        elif t == "kw":
+            # keyword names that are also public names of the SUT (`text` is a function of the stub)
+            s["code"], s["type"] = f"{v} = {al}.label(value={rng.randint(0, 9)}, text='x')", "str"
+            menu = [["Object", v, "abc"]]
         elif t == "bare":
             s["code"], s["type"], menu = f"{v} = ok({args()})", "int", [["Object", v, 7]]
         elif t == "type":
@@ -130,7 +147,7 @@ def gen_test(rng, module: str, n: int | None = None):
             k += rng.choice([1, 1, 2])
             if raising:
                 ghosts.append(v)
-            else:
+            elif v not in unused:
                 if t == "box":
                     boxes.append(v)
                 ok.append(v)
@@ -138,6 +155,8 @@ def gen_test(rng, module: str, n: int | None = None):
             menu = menu + invariants()
         rng.shuffle(menu)
         s["asserts"] = menu[: rng.choice([0, 1, 1, 2, 3])] if not raising else menu[: rng.choice([0, 1])]
+        if v in unused:
+            s["asserts"] = []     # their binding is rewritten away (liveness is C19's subject)
         stmts.append(s)
     # an assertion about a variable bound by an earlier statement keeps that variable alive only if a
     # later statement reads it (liveness of remove_unused_variables is C19's subject, not ours)
